@@ -420,7 +420,8 @@ Skel(evs) == [i \in DOMAIN evs |-> <<evs[i].k, evs[i].name>>]
 StartIdx(evs) == {i \in DOMAIN evs : evs[i].k = "start"}
 AttrsOf(evs) == [i \in DOMAIN evs |-> evs[i].attrs]
 
-LayoutCp == {32, 10}                                  \* what the writer adds around a line
+LayoutCp == {32, 9, 10}                               \* XML white space as a parser reports it (CR arrives as LF):
+                                                      \* whatever the writer lays out around a line
 IsLayout(s) == \A i \in DOMAIN s : s[i] \in LayoutCp
 LayPrefix(s) == LET n == Len(s)                       \* length of the maximal layout prefix
                     f == CHOOSE i \in 1..(n + 1) : /\ (i = n + 1 \/ s[i] \notin LayoutCp)
